@@ -94,10 +94,7 @@ func TestCheck(t *testing.T) {
 			run.Fatal(caseID + ": target: " + err.Error())
 			return
 		}
-		want := contents(intended)
-		before := contents(target)
-		trace := []string{"mode=" + mode, "intended:\n" + want.String(), "target before:\n" + before.String()}
-
+		var trace []string
 		var tgt reconciler.RIBTarget = reconciler.NewLocalRIB(target)
 		via := "local"
 		if i%10 == 0 {
@@ -125,73 +122,99 @@ func TestCheck(t *testing.T) {
 			via = "remote"
 		}
 		run.Seen("target_access", via)
-		base := uint64(r.Intn(1000))
-		id := &atomic.Uint64{}
-		id.Store(base)
-		ops, err := reconciler.New(reconciler.NewLocalRIB(intended), tgt).Reconcile(context.Background(), id)
-		var probs []string
-		if err != nil {
-			probs = append(probs, fmt.Sprintf("reconcile-error|%v", err))
+		// One reconciliation, or (1 case in 3) a chain of 2-4 on the same live target: the
+		// target of a later round carries the history of the earlier ones (groups replaced
+		// while keeping members, entries retargeted, deletions).
+		rounds := 1
+		if i%3 == 1 {
+			rounds = 2 + r.Intn(3)
 		}
-		if err == nil {
-			seq := [][]*spb.AFTOperation{ops.Add.NH, ops.Add.NHG, ops.Add.TopLevel, ops.Replace.NH, ops.Replace.NHG, ops.Replace.TopLevel, ops.Delete.TopLevel, ops.Delete.NHG, ops.Delete.NH}
-			names := []string{"add.nh", "add.nhg", "add.top", "replace.nh", "replace.nhg", "replace.top", "delete.top", "delete.nhg", "delete.nh"}
-			var ids []uint64
-			total := 0
-			for si, list := range seq {
-				for _, op := range list {
-					total++
-					ids = append(ids, op.GetId())
-					trace = append(trace, names[si]+": "+describe(op))
-					oks, fails, err := mon.Apply(target, gen.OpSpec{NI: op.GetNetworkInstance(), Op: op})
-					if err != nil || len(fails) > 0 || len(oks) == 0 || oks[0] != op.GetId() {
-						probs = append(probs, fmt.Sprintf("reconcile-op-rejected:%s|%s => oks=%v fails=%v err=%v", names[si], describe(op), oks, fails, err))
+		var probs []string
+		for round := 0; round < rounds && len(probs) == 0; round++ {
+			if round > 0 {
+				prev := intOps
+				intOps = g.Closed(intNIs, 0.3+r.Float64()*0.6)
+				if r.Intn(2) == 0 {
+					// the previous intent plus an overlay: many keys keep part of their payload
+					intOps = append(append([]gen.OpSpec{}, prev...), g.Closed(intNIs, 0.3)...)
+				}
+				intended = newRIB(g.S.Default, intNIs)
+				if err := build(intended, intOps); err != nil {
+					run.Fatal(caseID + ": intended: " + err.Error())
+					return
+				}
+				run.Count("chained_reconciliations", 1)
+			}
+			want := contents(intended)
+			before := contents(target)
+			trace = append(trace, fmt.Sprintf("round %d mode=%s", round+1, mode), "intended:\n"+want.String(), "target before:\n"+before.String())
+			base := uint64(r.Intn(1000))
+			id := &atomic.Uint64{}
+			id.Store(base)
+			ops, err := reconciler.New(reconciler.NewLocalRIB(intended), tgt).Reconcile(context.Background(), id)
+			if err != nil {
+				probs = append(probs, fmt.Sprintf("reconcile-error|%v", err))
+			}
+			if err == nil {
+				seq := [][]*spb.AFTOperation{ops.Add.NH, ops.Add.NHG, ops.Add.TopLevel, ops.Replace.NH, ops.Replace.NHG, ops.Replace.TopLevel, ops.Delete.TopLevel, ops.Delete.NHG, ops.Delete.NH}
+				names := []string{"add.nh", "add.nhg", "add.top", "replace.nh", "replace.nhg", "replace.top", "delete.top", "delete.nhg", "delete.nh"}
+				var ids []uint64
+				total := 0
+				for si, list := range seq {
+					for _, op := range list {
+						total++
+						ids = append(ids, op.GetId())
+						trace = append(trace, names[si]+": "+describe(op))
+						oks, fails, err := mon.Apply(target, gen.OpSpec{NI: op.GetNetworkInstance(), Op: op})
+						if err != nil || len(fails) > 0 || len(oks) == 0 || oks[0] != op.GetId() {
+							probs = append(probs, fmt.Sprintf("reconcile-op-rejected:%s|%s => oks=%v fails=%v err=%v", names[si], describe(op), oks, fails, err))
+						}
+						run.Seen("op_classes", names[si])
 					}
-					run.Seen("op_classes", names[si])
 				}
-			}
-			run.Count("ops_applied", int64(total))
-			if want.String() == before.String() && total != 0 {
-				probs = append(probs, fmt.Sprintf("reconcile-ops-for-equal-ribs|%d operations for equal RIBs", total))
-			}
-			sort.Slice(ids, func(a, b int) bool { return ids[a] < ids[b] })
-			for k, v := range ids {
-				if v != base+uint64(k)+1 {
-					probs = append(probs, fmt.Sprintf("reconcile-ids-not-consecutive|ids %v, base %d", ids, base))
-					break
+				run.Count("ops_applied", int64(total))
+				if want.String() == before.String() && total != 0 {
+					probs = append(probs, fmt.Sprintf("reconcile-ops-for-equal-ribs|%d operations for equal RIBs", total))
 				}
-			}
-			if id.Load() != base+uint64(total) {
-				probs = append(probs, fmt.Sprintf("reconcile-id-counter|counter %d after %d ops from base %d", id.Load(), total, base))
-			}
-			after := contents(target)
-			for _, d := range canon.Diff(want, after) {
-				f := strings.Fields(d)
-				sig := "not-converged:" + f[0]
-				if f[0] == "extra" {
-					ni := strings.SplitN(f[1], "/", 2)[0]
-					if _, ok := want[ni]; !ok {
-						sig += ":target-only-ni"
+				sort.Slice(ids, func(a, b int) bool { return ids[a] < ids[b] })
+				for k, v := range ids {
+					if v != base+uint64(k)+1 {
+						probs = append(probs, fmt.Sprintf("reconcile-ids-not-consecutive|ids %v, base %d", ids, base))
+						break
 					}
 				}
-				probs = append(probs, fmt.Sprintf("%s|after applying the reconciler's operations: %s", sig, d))
+				if id.Load() != base+uint64(total) {
+					probs = append(probs, fmt.Sprintf("reconcile-id-counter|counter %d after %d ops from base %d", id.Load(), total, base))
+				}
+				after := contents(target)
+				for _, d := range canon.Diff(want, after) {
+					f := strings.Fields(d)
+					sig := "not-converged:" + f[0]
+					if f[0] == "extra" {
+						ni := strings.SplitN(f[1], "/", 2)[0]
+						if _, ok := want[ni]; !ok {
+							sig += ":target-only-ni"
+						}
+					}
+					probs = append(probs, fmt.Sprintf("%s|after applying the reconciler's operations: %s", sig, d))
+				}
+				if len(target.VerifPendingOps()) > 0 {
+					probs = append(probs, fmt.Sprintf("reconcile-left-held-operations|%d", len(target.VerifPendingOps())))
+				}
 			}
-			if len(target.VerifPendingOps()) > 0 {
-				probs = append(probs, fmt.Sprintf("reconcile-left-held-operations|%d", len(target.VerifPendingOps())))
+			if len(tgtNIs) > len(intNIs) && len(before[tgtNIs[len(tgtNIs)-1]]) > 0 {
+				run.Count("pairs_with_populated_target_only_ni", 1)
+			}
+			if want.String() != before.String() {
+				run.Distinct(want.String() + "|" + before.String())
 			}
 		}
 		mon.Report(run, caseID, trace, probs)
 		run.Eval(1)
 		run.Seen("modes", mode)
-		if len(tgtNIs) > len(intNIs) && len(before[tgtNIs[len(tgtNIs)-1]]) > 0 {
-			run.Count("pairs_with_populated_target_only_ni", 1)
-		}
-		if want.String() != before.String() {
-			run.Distinct(want.String() + "|" + before.String())
-		}
 		if i < 2 {
 			run.Sample(map[string]any{"case": caseID, "trace": trace})
 		}
 	})
-	run.Finish("pairs of reference-closed RIBs without held operations over 1-3 NIs (target NIs a superset of intended NIs; independent / equal / intended-plus-overlay pairs; rich and compact payloads); Reconcile, apply Add NH,NHG,top / Replace NH,NHG,top / Delete top,NHG,NH one by one to the live target (reference checks on, each must be acknowledged), then target contents == intended contents, ids = base+1..base+n; 1 in 10 pairs observe the target through a real Get RPC (RemoteRIB). Non-trivial = the two RIBs differ", 50, false)
+	run.Finish("pairs of reference-closed RIBs without held operations over 1-3 NIs (target NIs a superset of intended NIs; independent / equal / intended-plus-overlay pairs; rich and compact payloads); Reconcile, apply Add NH,NHG,top / Replace NH,NHG,top / Delete top,NHG,NH one by one to the live target (reference checks on, each must be acknowledged), then target contents == intended contents, ids = base+1..base+n; 1 in 10 pairs observe the target through a real Get RPC (RemoteRIB). 1 case in 3 chains 2-4 reconciliations on the same live target (new independent intent, or the previous intent plus an overlay). Non-trivial = the two RIBs differ", 50, false)
 }
